@@ -181,3 +181,33 @@ def count_edges(body):
         else: r += 1
         v ^= 1
     return r, f
+
+
+def check_emit_sum(w, c, delays, lane, strip):
+    """C04 (per gate): every finite time on an op's output is a finite time of one of ITS operands plus one of that operand
+    line's four delays.  Needs intact intermediate waveforms (c_reuse off)."""
+    ops = np.asarray(w.ops)
+    nl = len(c.lines)
+    for o in ops:
+        out = int(o[1])
+        if out >= nl:
+            continue
+        body, term = waveform(w, out, lane)
+        if body is None:
+            continue
+        cands = set()
+        for x in o[2:6]:
+            x = int(x)
+            ob, _ = waveform(w, x, lane)
+            if ob is None:
+                continue
+            d = delays[x].flatten() if x < nl else np.zeros(4)
+            for u in ob:
+                if u > TMIN:
+                    for dd in d:
+                        cands.add(float(u + dd))
+        for t in body:
+            if t > TMIN and float(t) not in cands:
+                return (f'line {out}: transition at {t} is not an operand transition plus one of that operand\'s delays '
+                        f'(operands {[int(x) for x in o[2:6]]}, candidates {sorted(cands)[:8]})')
+    return None
